@@ -227,11 +227,12 @@ def shrink(mod, case, pred):
     cur = case
     improved = True
     budget = 400
-    while improved and budget > 0:
+    t_end = time.time() + 90          # a failing case may be slow (time-outs): bound the minimisation
+    while improved and budget > 0 and time.time() < t_end:
         improved = False
         for cand in mod.shrink_candidates(cur):
             budget -= 1
-            if budget <= 0:
+            if budget <= 0 or time.time() > t_end:
                 break
             try:
                 if pred(cand):
